@@ -221,3 +221,47 @@ Example merge_idempotent_n_example :
   valid_sig (params s) = true /\
   match merge [s; s; s] with Ok r => params r = params s | Err _ => False end.
 Proof. vm_compute. split; reflexivity. Qed.
+
+(* the same through the public binary function applied repeatedly: merge(merge(merge(s, x1), x2), ...) *)
+Lemma merge_nested_from_same_params ps ss : forall acc,
+  params acc = ps -> valid_sig ps = true -> (forall p, In p ps -> ann_wf p) ->
+  Forall (fun x => params x = ps) ss ->
+  exists r, merge_nested_from acc ss = Ok r /\ params r = ps.
+Proof.
+  induction ss as [|x ss IH]; intros acc Ea Hv Hw Hall.
+  - exists acc. split; [reflexivity|exact Ea].
+  - inversion Hall as [|? ? Hx Hall']; subst.
+    destruct (merge_same_params acc Hv Hw [x]) as [r1 [E1 P1]]; [constructor; [exact Hx|constructor]|].
+    cbn [merge_nested_from]. rewrite E1. cbn [bind]. apply IH; assumption.
+Qed.
+
+Theorem merge_nested_same_params s ss :
+  valid_sig (params s) = true -> (forall p, In p (params s) -> ann_wf p) ->
+  Forall (fun x => params x = params s) ss ->
+  exists r, merge_nested (s :: ss) = Ok r /\ params r = params s.
+Proof.
+  intros Hv Hw Hall. cbn [merge_nested]. apply merge_nested_from_same_params; auto.
+Qed.
+
+(* consequently the flat and the nested form agree on such inputs, parameter for parameter *)
+Theorem merge_nested_flat_same_params s ss :
+  valid_sig (params s) = true -> (forall p, In p (params s) -> ann_wf p) ->
+  Forall (fun x => params x = params s) ss ->
+  exists r1 r2, merge (s :: ss) = Ok r1 /\ merge_nested (s :: ss) = Ok r2 /\ params r1 = params r2.
+Proof.
+  intros Hv Hw Hall.
+  destruct (merge_same_params s Hv Hw ss Hall) as [r1 [E1 P1]].
+  destruct (merge_nested_same_params s ss Hv Hw Hall) as [r2 [E2 P2]].
+  exists r1, r2. repeat split; congruence.
+Qed.
+
+(* the hypothesis on annotations cannot be dropped: a parameter without annotation that still carries an
+   upgraded annotation (impossible for parameters sigtools builds) is not a fixed point of conciliation *)
+Theorem merge_idempotent_needs_ann_wf :
+  exists s, valid_sig (params s) = true /\
+    match merge [s; s] with Ok r => params r <> params s | Err _ => True end.
+Proof.
+  exists {| params := [ {| pname := 1; pkind := PK; pdef := None; pann := None; puann := UPre 5%N |} ];
+            ret := None; uret := UEmpty; srcs := []; deps := [] |}.
+  vm_compute. split; [reflexivity|]. discriminate.
+Qed.
